@@ -11,7 +11,7 @@ ASAN := -O1 -fsanitize=address,undefined -fno-sanitize-recover=undefined -fno-om
 C19_SRC := checks/c19/main.cpp checks/c19/seq.cpp checks/c19/sum.cpp checks/c19/prod.cpp
 C19_INC := -include sim/redirect_malloc.hpp
 
-C20_SRC := checks/c20/main.cpp $(wildcard checks/c20/kinds_*.cpp)
+C20_SRC := checks/c20/main.cpp $(wildcard checks/c20/kinds_*.cpp) $(wildcard checks/c20/views_*.cpp)
 
 C13_PIPES := $(patsubst checks/c13/%.cpp,%,$(wildcard checks/c13/pipelines_*.cpp))
 C13_FLAGS_cuda := -DC13_BACKEND_CUDA -include sim/shim/cuda_runtime_sim.hpp
